@@ -83,17 +83,56 @@ func factsMuxLocks() {
 	// the operations an application goroutine, a deplex goroutine or a timer runs
 	entries := []string{"Stream.Write", "Stream.ReadFrom", "Stream.Close", "Stream.Read", "Session.OpenStream", "Session.Accept",
 		"Session.Close", "Session.checkTimeout", "Session.AddConnection", "switchboard.deplex"}
-	var out []string
-	total := 0
+	// There are over a thousand distinct paths (error paths nest deeply), too many to hand to Lean as literals.
+	// Rank-orderedness of a path depends only on its ACQUISITION CONTEXTS — for every acquisition, the stack of locks
+	// held at that moment — and on its being well bracketed (Lean: C12L.ok_iff_ctx). Emit the distinct contexts.
+	type ctxT struct {
+		held []int
+		l    int
+	}
+	seenCtx := map[string]bool{}
+	var ctxs []string
+	paths, wellBracketed := 0, true
+	perEntry := map[string]int{}
 	for _, k := range entries {
 		progs := w.fnPrograms(k)
-		var ps []string
+		paths += len(progs)
+		perEntry[k] = len(progs)
 		for _, p := range progs {
-			ps = append(ps, leanProg(p))
-			total++
+			var held []int
+			for _, e := range p {
+				if e.acq {
+					var hs []string
+					for _, h := range held {
+						hs = append(hs, fmt.Sprint(h))
+					}
+					key := fmt.Sprintf("([%s], %d)", strings.Join(hs, ", "), e.cls)
+					if !seenCtx[key] {
+						seenCtx[key] = true
+						ctxs = append(ctxs, key)
+					}
+					held = append([]int{e.cls}, held...) // most recent first, as Locks.ok pushes
+				} else {
+					k := -1
+					for i, h := range held {
+						if h == e.cls {
+							k = i
+							break
+						}
+					}
+					if k < 0 {
+						wellBracketed = false
+					} else {
+						held = append(append([]int(nil), held[:k]...), held[k+1:]...)
+					}
+				}
+			}
+			if len(held) != 0 {
+				wellBracketed = false
+			}
 		}
-		out = append(out, fmt.Sprintf("  (%s, [%s])", leanStr(k), strings.Join(ps, ",\n      ")))
 	}
+	sort.Strings(ctxs)
 	// every table line must have matched at least one call site, otherwise the call graph above is stale
 	var dead []string
 	for _, e := range ents {
@@ -106,9 +145,15 @@ func factsMuxLocks() {
 		unrec(g, "lockPrograms", strings.Join(append(w.bad, dead...), "; "))
 		return
 	}
-	emit(g, "lockPrograms", "List (String × List (List (Bool × Nat)))", "[\n"+strings.Join(out, ",\n")+"]",
-		"lock programs of internal/multiplex: (true, c) = acquire class c, (false, c) = release; W=0 T=1 R=2 L=3 N=4")
-	natFact(g, "lockProgramCount", total, "number of distinct paths")
+	emit(g, "lockContexts", "List (List Nat × Nat)", "["+strings.Join(ctxs, ", ")+"]",
+		"distinct acquisition contexts (locks held, most recent first; lock acquired) over all paths; W=0 T=1 R=2 L=3 N=4")
+	natFact(g, "lockPathCount", paths, "number of distinct control-flow paths examined")
+	boolFact(g, "lockPathsWellBracketed", wellBracketed, "every path releases exactly what it acquired")
+	var pe []string
+	for _, k := range entries {
+		pe = append(pe, fmt.Sprintf("(%s, %d)", leanStr(k), perEntry[k]))
+	}
+	emit(g, "lockPathsPerEntry", "List (String × Nat)", "["+strings.Join(pe, ", ")+"]", "paths per entry point")
 	// the one blocking operation performed while a lock is held: `sesh.acceptCh <- newStream` under streamsM
 	if fn := fnOf(mx, "Session.recvDataFromRemote"); fn != nil {
 		evs := events(fn)
